@@ -248,6 +248,11 @@ func Open(b string) world.Req {
 func Prot(b string) world.Req {
 	return world.Req{Browser: b, Method: "GET", Path: "/app/prot", ForceForm: true, Tag: world.Tag{Kind: "prot"}}
 }
+
+// Guard requests the route wrapped by lock.Middleware / confirm.Middleware only.
+func Guard(b string) world.Req {
+	return world.Req{Browser: b, Method: "GET", Path: "/app/guard", ForceForm: true, Tag: world.Tag{Kind: "guard"}}
+}
 func Full(b string) world.Req {
 	return world.Req{Browser: b, Method: "GET", Path: "/app/full", ForceForm: true, Tag: world.Tag{Kind: "full"}}
 }
